@@ -50,6 +50,43 @@ class FnSpec:
 
 
 PURE_LOG = {"as_raw", "display", "to_string", "to_str", "unwrap_or_default", "len", "as_str", "Some", "code", "as_secs", "identifier_list", "get_id"}
+def fmt_to_cat(lit):
+    """T-FMT (exact form): a format string whose placeholders are all `{ident}` naming String/&str variables is a
+    concatenation; returns the nested crate::vb64::cat2 expression, or None when the string has any other shape."""
+    body = lit[1:-1]
+    parts, i, cur = [], 0, ""
+    while i < len(body):
+        ch = body[i]
+        if ch == "{":
+            if body.startswith("{{", i):
+                cur += "{"; i += 2; continue
+            j = body.find("}", i)
+            name = body[i + 1:j]
+            if not re.fullmatch(r"[A-Za-z_][A-Za-z0-9_]*", name):
+                return None
+            if cur:
+                parts.append('"' + cur + '"'); cur = ""
+            parts.append("&" + name)
+            i = j + 1
+            continue
+        if ch == "}":
+            if body.startswith("}}", i):
+                cur += "}"; i += 2; continue
+            return None
+        if ch == "\\":
+            cur += body[i:i + 2]; i += 2; continue
+        cur += ch
+        i += 1
+    if cur:
+        parts.append('"' + cur + '"')
+    if not parts:
+        return 'String::new()'
+    expr = None
+    for p in parts:
+        expr = f"crate::vb64::cat2({p}, \"\")" if expr is None and len(parts) == 1 else (p if expr is None else f"crate::vb64::cat2({expr if expr.startswith('&') or expr.startswith(chr(34)) else '&' + expr}, {p})")
+    return expr
+
+
 GHOST_PARAM = "Tracked(w): Tracked<&mut World>"
 GHOST_ARG = "Tracked(&mut *w)"
 
@@ -174,6 +211,18 @@ class Piece:
                 inner = self.sf.text[toks[k + 1].end:toks[close].start]
                 if name == "serde" or (name == "cfg" and "crypto_openssl" in inner) or name == "allow":
                     self._add(toks[k].start, toks[close].end, "", "T-ATTR")
+                elif name == "cfg" and ("ed25519" in inner or "ed448" in inner):
+                    # the build script turns both features on with every OpenSSL >= 1.1.1: cfg(feature = "ed25519") is true
+                    if "not(" in inner.replace(" ", ""):
+                        j = close + 1
+                        while toks[j].text != ";":
+                            if toks[j].text in OPEN:
+                                j = match_close(toks, j)
+                            j += 1
+                        self._add(toks[k].start, toks[j].end, "", "T-ATTR")
+                        close = j
+                    else:
+                        self._add(toks[k].start, toks[close].end, "", "T-ATTR")
                 k = close
             k += 1
 
@@ -229,6 +278,19 @@ class Piece:
             k += 1
         # T-ATTR inside bodies: #[cfg(feature = "crypto_openssl")] on statements/blocks (feature is on in every shipped build)
         self._inner_attr_strip(kb, k1)
+        # T-FMT (opaque): `format!(..).into()` builds an error message; its text is irrelevant to every property
+        k = kb
+        while k < k1:
+            t = toks[k]
+            if t.text == "format" and toks[k + 1].text == "!" and toks[k + 2].text == "(":
+                close = match_close(toks, k + 2)
+                if toks[close + 1].text == "." and toks[close + 2].text == "into" and toks[k - 1].text != "&":
+                    inner = toks[k + 3:close]
+                    if not any(x.text == "(" and i > 0 and inner[i - 1].kind == "ident" and inner[i - 1].text not in PURE_LOG
+                               for i, x in enumerate(inner)):
+                        self._add(t.start, toks[close].end, "crate::opaque_string()", "T-FMT")
+                k = close
+            k += 1
         # T-LOG (3): bare debug!(..) / info!(..) ... imported from the log crate
         k = kb
         while k < k1:
